@@ -186,6 +186,36 @@ pub fn build_sys_uneven(net: &Net, counts: &[u16], bits: &[ParamBit]) -> Result<
     Ok(Sys { net: net.clone(), bn, graph, book, k, canon_graph, canon_book })
 }
 
+/// A graph over the same symbolic encoding as `build_sys(net, k, ..)` whose unit set is restricted
+/// to a subset of the colours (`with_custom_context` with a unit BDD over parameter variables
+/// only: one literal or a disjunction of two). `None` if the network has no parameter variables.
+pub fn build_sys_colour_restricted(net: &Net, k: u16, bits: &[ParamBit], rng: &mut Rng) -> Result<Option<(Sys, String)>, String> {
+    use biodivine_lib_param_bn::symbolic_async_graph::SymbolicContext;
+    let bn = parse_bn(net)?;
+    let map: HashMap<_, _> = bn.variables().map(|v| (v, k)).collect();
+    let context = SymbolicContext::with_extra_state_variables(&bn, &map)?;
+    let params = context.parameter_variables().clone();
+    if params.is_empty() {
+        return Ok(None);
+    }
+    let vars = context.bdd_variable_set();
+    let p1 = *rng.pick(&params);
+    let b1 = rng.coin();
+    let mut unit = vars.mk_literal(p1, b1);
+    let mut what = format!("{}={}", vars.name_of(p1), b1);
+    if rng.coin() {
+        let p2 = *rng.pick(&params);
+        let b2 = rng.coin();
+        unit = unit.or(&vars.mk_literal(p2, b2));
+        what = format!("{what} | {}={}", vars.name_of(p2), b2);
+    }
+    let graph = SymbolicAsyncGraph::with_custom_context(&bn, context, unit)?;
+    let book = book_for(net, &graph, bits)?;
+    let canon_graph = SymbolicAsyncGraph::new(&bn)?;
+    let canon_book = book_for(net, &canon_graph, bits)?;
+    Ok(Some((Sys { net: net.clone(), bn, graph, book, k, canon_graph, canon_book }, what)))
+}
+
 impl Book {
     pub fn valuation(&self, state: u32, colour: &[bool], spare_ones: bool) -> BddValuation {
         let mut val = BddValuation::all_false(self.num_vars);
